@@ -14,10 +14,17 @@ RULE = ("formats = 40 fixed small ones + small formats drawn from the seed (opti
         "tokens at length 3, 10 at length 4), seeded random of length 3-6 over the whole alphabet.  (b) single-fault mutations of valid C01 lines (any spelling, groups included): an unknown long "
         "/ short option inserted between two items or appended to a group of flags, a required argument dropped, a surplus "
         "positional added, the value of a value-requiring option stripped, a typed value replaced by an unconvertible text, a "
-        "value attached to a flag - the oracle demands the error kind the statement fixes for that fault.  Non-trivial = reaches "
+        "value attached to a flag - the oracle demands the error kind the statement fixes for that fault; the unknown letter of a "
+        "group also behind 4 / 7 / 12 repeated flags, and the alphabet holds groups of 8 letters.  (c) typed values: for every "
+        "typed option (--name=T, -nT, --name T) and typed argument of every format, 45 texts that LOOK numeric (1e3, 2.0, .5, inf, "
+        "nan, 1e999, 0x1F, 1_0, ' 5', '+5', '-0', non-ASCII digits, 30 and 400 digits ...) and 20 that look boolean: where "
+        "CPython's int() / float() reject the text (booleans: texts no spelling table could accept) the oracle demands the "
+        "ValueError, the rest is compared with the model.  Non-trivial = reaches "
         "an error or sets a value; distinct by (format, mode, tokens)")
 TRUSTED = []
 ASSUMPTIONS = ["formats are valid (built through ArgsFormat), option/argument objects are valid (C07)",
+               "'a value that does not convert to the declared type' is read as: CPython's int() / float() reject the text (the declared "
+               "types are Python's); for booleans the oracle judges only texts outside any plausible table of spellings",
                "exhaustive depth is 2 over the whole alphabet and 3 (quick) / 4 (thorough) over a reduced one, not the 6 of the quantifier; lengths 3..6 are sampled"]
 
 EXTRA = ["zz", "z"]
@@ -43,6 +50,8 @@ def alphabet(levels):
     sv = [o["short"] for o in opts if o["short"] and not is_flag(o)]
     if sf:
         toks += ["-" + sf[0] * 3, "-" + sf[0] + "z" + sf[0]]
+        # LONG groups (a group has no maximal length): eight flags; an unknown letter in seventh place
+        toks += ["-" + (sf[0] + sf[-1]) * 4, "-" + sf[0] * 6 + "z" + sf[0]]
     if len(sf) >= 2:
         toks += ["-" + sf[0] + sf[1], "-" + "".join(sf[:3]) + sf[0]]
     if sf and sv:
@@ -135,7 +144,9 @@ def faults(entries, levels, rng):
     if fl:
         i = rng.choice(fl)
         e = entries[i]
-        out.append(("unknown-letter-in-group", toks(entries[:i] + [("x", [e[1][0] + unk + rng.choice(["", e[1][0][1]])], None)] + entries[i + 1:])))
+        # (the group made longer first, now and then: a flag may be repeated)
+        longer = e[1][0] + e[1][0][1] * rng.choice([0, 0, 0, 4, 7, 12])
+        out.append(("unknown-letter-in-group", toks(entries[:i] + [("x", [longer + unk + rng.choice(["", e[1][0][1]])], None)] + entries[i + 1:])))
     vals = [i for i, e in enumerate(entries) if e[0] == "p"]
     nreq = sum(1 for a in args if a["flags"] & G.A_REQ)
     multi = any(a["flags"] & G.A_MULTI for a in args)
@@ -183,6 +194,80 @@ def faults(entries, levels, rng):
         i = rng.choice(cand)
         out.append(("value-given-to-flag", toks(entries[:i] + [("x", ["--" + unS(entries[i][2][1]) + rng.choice(["=val", "=", "=1"])], None)] + entries[i + 1:])))
     return out
+
+
+# ---------------------------------------------------------------- typed values: texts that LOOK numeric / boolean
+# (the alphabet's values are 'val', '5', '-5', 'a=b'; C01's valid values '5', '12', '1.5', '1e3'.  Whether a text converts is
+# decided here by CPython's own int() / float() - the declared types are Python's - and for booleans only texts are judged that
+# no table of spellings could accept; everything else is compared with the model only.)
+NUM_TEXTS = ["1e3", "1E3", "2.0", "2.5", ".5", "5.", "inf", "-inf", "Infinity", "nan", "NaN", "1e999", "-1e999", "1e-999", "0x1F", "0b1",
+             "0o7", "1_0", "_1", "1__0", " 5", "5 ", "\t5\n", "+5", "-0", "--5", "\u0663", "\u0661\u0662", "\uff15", "\u00bd", "1,5", "1 000", "5L", "1j",
+             "1e", "e3", "9" * 30, "1" + "0" * 400, "-", "+", ".", "0.1e1", "1e1_0", "null", "NULL", "None", "true"]
+BOOL_TEXTS = ["TRUE", "True", "ON", "2", "-1", "y", "n", "t", "f", "oui", " true", "true ", "1.0", "00", "01", "nul", "null", "maybe", "abc", "1e0"]
+BOOL_NEVER = {"2", "-1", "maybe", "abc", "1e0", "1.0", "nul"}
+
+
+def convertible(typ, nullable, text):
+    """-> True / False / None (None: not judged by the oracle)"""
+    if nullable and text == "null":
+        return True
+    if typ == "int":
+        try:
+            int(text)
+            return True
+        except ValueError:
+            return False
+    if typ == "float":
+        try:
+            float(text)
+            return True
+        except (ValueError, OverflowError):
+            return False
+    if typ == "bool":
+        if text in ("true", "1", "yes", "on", "false", "0", "no", "off"):
+            return True
+        return False if text in BOOL_NEVER else None
+    return True
+
+
+def value_stream(fmts):
+    """for every typed option / argument of every format and every text: a line that is valid but for (perhaps) that text"""
+    cases, hist = [], {}
+
+    def add(fref, toks, fault):
+        for lenient in (0, 1):
+            c = {"len": lenient, "toks": toks}
+            if fault:
+                c["fault"] = fault
+            c.update(fref)
+            cases.append(c)
+        hist[fault or "convertible-or-not-judged"] = hist.get(fault or "convertible-or-not-judged", 0) + 1
+    for fref, levels in fmts:
+        args = G.fmt_args(levels)
+        need = ["1"] * sum(1 for a in args if a["flags"] & G.A_REQ)          # '1' converts to every type
+        for o in G.fmt_options(levels):
+            typ = L.otype(o)
+            if is_flag(o) or typ == "str":
+                continue
+            nullable = bool(o["flags"] & G.O_NULL)
+            for t in (BOOL_TEXTS if typ == "bool" else NUM_TEXTS):
+                cv = convertible(typ, nullable, t)
+                fault = "unconvertible-option-value" if cv is False else None
+                add(fref, ["--" + o["long"] + "=" + t] + need, fault)
+                if o["short"]:
+                    add(fref, need + ["-" + o["short"] + t], fault)
+                if not t.startswith("-"):
+                    add(fref, ["--" + o["long"], t] + need, fault)
+        for k, a in enumerate(args):
+            typ = L.atype(a)
+            if typ == "str":
+                continue
+            nullable = bool(a["flags"] & G.A_NULL)
+            for t in (BOOL_TEXTS if typ == "bool" else NUM_TEXTS):
+                cv = convertible(typ, nullable, t)
+                vals = ["1"] * k + [t] + ["1"] * max(0, len(need) - k - 1)
+                add(fref, ["--"] + vals, "unconvertible-argument-value" if cv is False else None)
+    return cases, hist
 
 
 def mutation_stream(rng, tier, fmts):
@@ -242,6 +327,8 @@ def gen(rng, tier, info):
     n_ex = len(cases)
     mut, mhist = mutation_stream(rng, tier, fmts) if tier != "search" else ([], {})
     cases += mut
+    vals, vhist = value_stream(fmts)
+    cases += vals
     for _ in range(nrand):
         fref, levels = fmts[rng.randrange(len(fmts))]
         al = alphabet(levels)
@@ -251,7 +338,8 @@ def gen(rng, tier, info):
     info["distribution"] = {"formats": len(fmts), "generated_formats": sum(1 for f, _ in fmts if "lv" in f),
                             "exhaustive_cases": n_ex, "random_cases": nrand, "alphabet_sizes (full, reduced...)": hist,
                             "exhaustive_len_full_alphabet": 2, "exhaustive (alphabet size, length) reduced": plan,
-                            "single_fault_mutations": len(mut), "by_fault": mhist}
+                            "single_fault_mutations": len(mut), "by_fault": mhist,
+                            "typed_value_texts (numeric / boolean looking)": len(vals), "typed_value_cases_by_verdict": vhist}
     return cases
 
 
